@@ -27,7 +27,7 @@ var extras = map[string][]func(c *Ctx){}
 
 // counters that must be > 0 after the extra families ran (vacuity guards)
 var extraRequire = map[string][]string{
-	"C07": {"cli_diff_collapse-length", "cli_diff_collapse-support", "cli_diff_collapse-depth", "cli_diff_resolve"},
+	"C07": {"cli_diff_collapse-length", "cli_diff_collapse-support", "cli_diff_collapse-depth", "cli_diff_resolve", "cli_diff_collapse-support-negative", "cli_diff_collapse-depth-small-then-large"},
 	"C05": {"cli_diff_reroot-midpoint", "cli_diff_unroot", "cli_diff_reroot-outgroup", "cli_diff_reroot-outgroup-multi"},
 	"C09": {"cli_diff_consensus"},
 	"C10": {"cli_diff_support-fbp", "cli_diff_support-tbe"},
@@ -252,7 +252,83 @@ func cliDiffC07(quick bool) []cliDiff {
 			}})
 		}
 	}
+	// supports are arbitrary numbers (internode certainty lies in [-1,1]): negative supports, cutoffs <= 0, no cutoff given
+	for _, txt := range []string{
+		"((A:1,B:1)-0.5:0.1,C:1,((D:1,E:1)0.3:0.2,F:1)0.9:0.4);",
+		"((A:1,B:1)-0.5:0.1,(C:1,(D:1,E:1)-0.25:0.2)0:0.4);",
+		"(A:1,(B:1,(C:1,(D:1,E:1)-2:1)-0.125:1)0.5:1);",
+	} {
+		txt := txt
+		files := map[string]string{"t.nw": txt + "\n"}
+		for _, s := range []float64{0, -0.25, -0.125, -1, 0.5} {
+			for _, given := range bs {
+				if !given && s != 0 {
+					continue
+				}
+				s := s
+				args := []string{"collapse", "support", "-i", "@/t.nw"}
+				if given {
+					args = append(args, "-s", fmt.Sprint(s))
+				}
+				ds = append(ds, cliDiff{"C07", "collapse-support-negative", args, files, fmt.Sprintf("CollapseLowSupport(%v, removeRoot=false)", s), func() (string, bool) {
+					t := gtMustParse(txt)
+					t.CollapseLowSupport(s, false)
+					return nwOf(t), false
+				}})
+			}
+		}
+	}
+	// a small tree followed by a larger one in the same file: thresholds that exceed what the small tree can show
+	big := cliDiffBig()
+	for _, small := range []string{"(t1:1,t2:1,t3:1);", "((t1:0.25,t2:0.5)0.25:0.75,t3:1,(t4:0.5,(t5:1,t6:2)0.125:0.25)0.5:0.5);"} {
+		for _, bg := range big {
+			small, bg := small, bg
+			files := map[string]string{"t.nw": small + "\n" + bg + "\n"}
+			both := func(f func(t *tree.Tree) bool) (string, bool) {
+				out := ""
+				for _, x := range []string{small, bg} {
+					t := gtMustParse(x)
+					if !f(t) {
+						return "", true
+					}
+					out += nwOf(t)
+				}
+				return out, false
+			}
+			for _, mm := range [][2]int{{2, 4}, {3, 5}, {1, 6}, {4, 4}, {0, 100}} {
+				mm := mm
+				ds = append(ds, cliDiff{"C07", "collapse-depth-small-then-large", []string{"collapse", "depth", "-i", "@/t.nw", "-m", fmt.Sprint(mm[0]), "-M", fmt.Sprint(mm[1])}, files,
+					fmt.Sprintf("ReinitIndexes; CollapseTopoDepth(%d, %d, false, false) on each tree", mm[0], mm[1]), func() (string, bool) {
+						return both(func(t *tree.Tree) bool {
+							return t.ReinitIndexes() == nil && t.CollapseTopoDepth(mm[0], mm[1], false, false) == nil
+						})
+					}})
+			}
+			for _, l := range []float64{0.5, 3, 100} {
+				l := l
+				ds = append(ds, cliDiff{"C07", "collapse-length-small-then-large", []string{"collapse", "length", "-i", "@/t.nw", "-l", fmt.Sprint(l)}, files,
+					fmt.Sprintf("CollapseShortBranches(%v, false, false) on each tree", l), func() (string, bool) {
+						return both(func(t *tree.Tree) bool { t.CollapseShortBranches(l, false, false); return true })
+					}})
+				ds = append(ds, cliDiff{"C07", "collapse-support-small-then-large", []string{"collapse", "support", "-i", "@/t.nw", "-s", fmt.Sprint(l / 4)}, files,
+					fmt.Sprintf("CollapseLowSupport(%v, false) on each tree", l/4), func() (string, bool) {
+						return both(func(t *tree.Tree) bool { t.CollapseLowSupport(l/4, false); return true })
+					}})
+			}
+		}
+	}
 	return ds
+}
+
+// cliDiffBig: a 12-tip caterpillar and a 12-tip balanced tree, lengths 0.25..4 and supports 0.0625.. on inner branches.
+func cliDiffBig() []string {
+	cat := "(u1:1,u2:2"
+	for i := 3; i <= 11; i++ {
+		cat = fmt.Sprintf("(%s)%v:%v,u%d:%v", cat, float64(i)/16, float64(i%5+1)/4, i, float64(i%3+1))
+	}
+	cat = "(" + cat + ")0.875:0.5,u12:1,u13:2);"
+	bal := "((((v1:1,v2:2)0.1:0.25,v3:1)0.2:3,((v4:1,v5:1)0.3:0.5,v6:2)0.4:1)0.5:4,(((v7:1,v8:1)0.6:0.75,v9:3)0.7:2,((v10:1,v11:1)0.8:0.5,v12:1)0.9:0.25)0.95:1,v13:1);"
+	return []string{cat, bal}
 }
 
 // ---- C05: reroot / unroot ------------------------------------------------------------------
